@@ -277,6 +277,14 @@ class SliceEval:
             if s is not None:
                 return (lin_atom("S[%s]" % show(t[1])), s[1])
             return None
+        if t[0] == "proj" and t[1][0] == "call" and t[1][1] in ("core::str::split_at", "core::str::split_at_checked") and len(t[1][2]) == 2 \
+                and t[2] in ((("field", "0"),), (("field", "1"),), (("downcast", "Some"), ("field", "0"), ("field", "0")), (("downcast", "Some"), ("field", "0"), ("field", "1"))):
+            s = self.slice(t[1][2][0])
+            n = self.lin(t[1][2][1])
+            if s is None or n is None:
+                return None
+            mid = lin_add(s[0], n)
+            return (s[0], mid) if t[2][-1] == ("field", "0") else (mid, s[1])
         if t[0] == "call":
             fn = t[1]
             if fn == "core::option::Option::unwrap_or":
@@ -394,6 +402,40 @@ def pieces_of(prog, body, maker, ev):
             continue
         else:
             out.append((c, "other:" + nm, None))
+    return out
+
+
+def _blank_str_term(body, t, depth=0):
+    """a &str term that can only be a string of blank characters (possibly empty): a constant, or a variable all of whose
+    definitions are such constants"""
+    if t[0] == "const" and t[1] == "str":
+        return all(ord(ch) in BLANK_CHARS for ch in t[2])
+    if t[0] == "var" and depth < 3:
+        defs = [d for d in body.defs.get(t[1], []) if d[0] in ("assign", "call")]
+        return bool(defs) and all(_blank_str_term(body, t_def(body, d, 0, (t[1],)), depth + 1) for d in defs)
+    return False
+
+
+def pieces_of_concat(prog, body, site, ev):
+    """Pieces of a text built in one go: `[a, b, c].concat()` / `[a, b, c].join(<blank or empty constant>)` — same result format as
+    pieces_of (every piece carries the one call site)."""
+    recv = t_operand(body, site.args[0], 0, (), site.bb)
+    if recv[0] != "agg" or recv[1] != "array":
+        return [(site, "foreign", show(recv))]
+    sep = None
+    if (site.callee or "").endswith("::join"):
+        sep = t_operand(body, site.args[1], 0, (), site.bb)
+        if not _blank_str_term(body, sep):
+            return [(site, "foreign", "join separator %s" % show(sep))]
+    out = []
+    for i, el in enumerate(recv[2]):
+        if i and sep is not None:
+            out.append((site, "blank", show(sep)))
+        if _blank_str_term(body, el):
+            out.append((site, "blank", show(el)))
+            continue
+        s = ev.slice(el)
+        out.append((site, "slice" if s is not None else "foreign", s if s is not None else show(el)))
     return out
 
 
